@@ -41,6 +41,9 @@ POOL = [
     "{ const int32_t q = 1; q = RsV; RdV = q; }",        # assignment to const
     "{ P0 = mem_load_u8(RsV) + undefined_fn(3); }",      # fails after attribute flags were set
     "{ int32_t n = RsV; n++; RdV = n; break; }",         # fails at the end
+    "{ G1_NEW = RsV; }",                                 # fails right after a flag was set, before any operand is registered
+    "{ JUMP(undefined_target_x); }",
+    "{ mem_store_u8(undefined_addr_x, 1); }",
 ]
 PROBES = [0, 1, 2, 3, 4, 5, 6, 7, 8, 9, 10, 11, 12, 13]
 ENTRIES = ("stmt", "insn", "cinsn")
@@ -181,6 +184,37 @@ def long_history_programs(thorough):
     return progs
 
 
+REG_BAD = [("int32_t", ["int32_t a"], "{ return a +; }"), ("int64_t", ["int8_t a", "int8_t b"], "{ return undefined_fn_x(a); }"),
+           ("uint8_t", ["uint64_t a"], "{ while (a) { a = a - 1; } return a; }"), ("uint16_t", ["int16_t a"], "{ int32_t vf_h_k = a; vf_h_k++; return vf_h_k + nope; }"),
+           ("void", ["HexInsnPktBundle *bundle", "int32_t a"], "{ R1 = a; break; }")]
+REG_GOOD = ("int32_t", ["int32_t a"], "{ int32_t vf_h_k = a; vf_h_k++; return vf_h_k * 2; }")
+REG_CALLERS = ["{ RdV = vf_h_sub(RsV); }", "{ RddV = vf_h_sub(RssV) + vf_h_sub(RtV); }"]
+
+
+def _registration_history(item):
+    """(e) public API Compiler.add_sub_routine: a FAILED registration followed by a corrected one under the same name must leave the
+    compiler as if only the corrected one had happened.  item = index into REG_BAD or -1 (reference).  Own process each."""
+    from rzilcompiler.Compiler import Compiler
+    from rzilcompiler.ArchEnum import ArchEnum
+    from rzilcompiler.Transformer.Hybrids.SubRoutine import SubRoutineInitType
+    import io, contextlib
+    with contextlib.redirect_stdout(io.StringIO()):
+        c = Compiler(ArchEnum.HEXAGON)
+    first = None
+    if item >= 0:
+        try:
+            c.add_sub_routine("vf_h_sub", *REG_BAD[item])
+            first = "accepted"
+        except Exception as e:  # noqa
+            first = type(e).__name__
+    try:
+        c.add_sub_routine("vf_h_sub", *REG_GOOD)
+        definition = c.sub_routines["vf_h_sub"].il_init(SubRoutineInitType.DEF)
+    except Exception as e:  # noqa
+        return (item, first, ("exc", type(e).__name__), [])
+    return (item, first, ("ok", definition), [_do(c, t, "stmt") for t in REG_CALLERS])
+
+
 def footprint(c):
     """Reflected persistent state of a Compiler and of the class-level mutables of the package."""
     from rzilcompiler.HexagonExtensions import HexagonTransformerExtension
@@ -311,6 +345,22 @@ def run(tier):
         else:
             nlong_ok += 1
             rep.add(key, "ok")
+    # (e) registration histories
+    regs = framework.pmap(_registration_history, [-1] + list(range(len(REG_BAD))), fresh=True)
+    ref = regs[0]
+    nreg_ok = 0
+    for item, first, definition, callers in regs[1:]:
+        key = f"register:failed({REG_BAD[item][2]}) then corrected"
+        if first == "accepted":
+            rep.add(key, "inconclusive", "bad-accepted", "the deliberately broken sub-routine body was accepted")
+        elif definition != ref[2] and not (definition[0] == "ok" and ref[2][0] == "ok" and normalise(definition[1]) == normalise(ref[2][1])):
+            rep.add(key, "violation", "registration", f"after a failed registration ({first}) the corrected sub-routine is not what a fresh compiler builds: "
+                    f"{str(definition)[:160]} vs {str(ref[2])[:160]}")
+        elif [(c_[0], normalise(c_[1]) if c_[0] == "ok" else c_[1]) for c_ in callers] != [(c_[0], normalise(c_[1]) if c_[0] == "ok" else c_[1]) for c_ in ref[3]]:
+            rep.add(key, "violation", "registration", "callers of the corrected sub-routine compile differently after a failed registration of the same name")
+        else:
+            nreg_ok += 1
+            rep.add(key, "ok")
     # (c) footprint step
     nfp = 0
     for idx, entry, status, diff in framework.pmap(_footprint_step, [(i, e) for i in range(len(POOL)) for e in ENTRIES], chunksize=4):
@@ -330,6 +380,8 @@ def run(tier):
         functions_encoded=["Compiler.compile_c_stmt", "Compiler.transform_insn", "Compiler.compile_insn", "RZILTransformer.reset",
                            "ILOpsHolder.clear", "HexagonTransformerExtension.reset_flags / set_token_meta_data / get_meta (CrossHair)",
                            "class-level state of Compiler, PreprocessorHexagon, HexagonTransformerExtension"],
+        registration_histories=dict(cases=len(REG_BAD), agreeing=nreg_ok, explanation="(e) Compiler.add_sub_routine with a failing body, then the corrected "
+                                    "sub-routine under the same name, in a fresh process each; definition text and two callers vs a process that only registers the corrected one"),
         long_histories=dict(programs=len(lprogs), orders=norders, programs_agreeing=nlong_ok,
                             explanation="(d) every program of the mixed family + the pool + interleaved failing inputs compiled once per process in "
                                         f"{norders} different seeded orders (two instances in turn, entry point fixed per program): status, attributes and "
